@@ -50,7 +50,7 @@ CHECKS = {
     },
     "C05": {
         "level": "fault_enumeration",
-        "parts": [{"gen": "C05", "quick": 88, "thorough": 880}, {"gen": "C05udp", "quick": 45, "thorough": 450}],
+        "parts": [{"gen": "C05", "quick": 88, "thorough": 880}, {"gen": "C05udp", "quick": 45, "thorough": 450}, {"gen": "C05udpin", "quick": 120, "thorough": 1200}],
         "rule": "one plan = one encrypted (protocol, cipher, single/multi-user) cell x direction; the man-in-the-middle node mutates the real byte stream between the real client and server: "
                 "one bit flipped in every byte position 0..n-1 (exhaustive over positions, bit drawn), truncation+close at every third offset, seeded deletions, duplications, insertions and multi-byte edits, "
                 "and full reflection of a sender's stream (Shadowsocks 2022, VMess). Each mutation is one evaluation. Oracle: everything released to the far side is a prefix of what was written; "
@@ -59,7 +59,8 @@ CHECKS = {
         "real": REAL_SYSTEM, "stub": STUB_SYSTEM + ["man-in-the-middle mutator on the client<->server link (harness)"],
         "assumptions": ASSUME_SYSTEM + ["plain tcp and ws carriers (under tls / wss / quic the outer TLS layer, third-party code, rejects every mutation first)",
                                         "VMess leaves chunk padding unauthenticated by design, so VMess is held to the prefix oracle only",
-                                        "Trojan has no encryption of its own and is outside this property", "generator C05udp: an on-path attacker re-injects every captured Shadowsocks datagram of both directions with a bit flipped at every byte position, truncations, edits, appended bytes and (2022) reflected to its sender"],
+                                        "Trojan has no encryption of its own and is outside this property", "generator C05udp: an on-path attacker re-injects every captured Shadowsocks datagram of both directions with a bit flipped at every byte position, truncations, edits, appended bytes and (2022) reflected to its sender",
+                                        "generator C05udpin: the attacker is *in* the path - the simulator parks every datagram of the client<->server link; the attacker first presents its mutated versions (a bit flipped at every byte position, truncations, multi-byte edits, whole 16-byte blocks replaced, appended bytes, reflection) and only then lets the genuine datagram pass, so that the packet-id window cannot hide a decoder that stopped checking part of a datagram; rounds alternate between a session the server already knows and the first datagram of a new one; nothing may reach target or application before the genuine datagram, which must still be relayed afterwards; a replay from another address must not be relayed (2022)"],
     },
     "C13": {
         "level": "fault_enumeration",
@@ -75,15 +76,15 @@ CHECKS = {
         "level": "fault_enumeration",
         "parts": [{"gen": "C15", "quick": 1600, "thorough": 40000, "quick_deadline_s": 420, "thorough_deadline_s": 3000}],
         "rule": "one run = a batch of 1-16 (thorough -32) concurrent flows through the real client and server over a cycling (protocol, cipher, tcp/tls/ws/wss) cell; every flow ends in a drawn way: "
-                "application or target half-close, close after everything, abandon (close with data in flight), reset; target refused / unresolvable / black-holed; or the whole client<->server link is cut (RST) at a drawn byte offset "
+                "application or target half-close, close after everything, abandon (close with data in flight), reset, abort after writing (RST ordered after the data: the proxy reads all of it, then ECONNRESET); target refused / unresolvable / black-holed; or the whole client<->server link is cut (RST) at a drawn byte offset "
                 "by the man-in-the-middle node; scripts with pauses place the ending before, during or after the transfer. Oracle: (1) data written by the side that closes gracefully reaches the other side, "
                 "(2) the other side observes EOF/reset within 10 simulated seconds (+ path latency) of the close (140 s for a black-holed dial), (3) after the batch the open simulated sockets and the live tasks "
-                "of client and server equal the idle baseline measured before it, and neither main() has returned. non-trivial = bytes relayed or a target fault exercised; distinct = (plan shape, poll order).",
+                "of client and server equal the idle baseline measured before it - both after the harness peers have gone and, when every flow has ended, already while the peers that did not close still hold their sockets (release must not wait for the second peer); a side that only half-closed sees the proxy close its connection; and neither main() has returned. non-trivial = bytes relayed or a target fault exercised; distinct = (plan shape, poll order).",
         "real": REAL_SYSTEM, "stub": STUB_SYSTEM + ["man-in-the-middle node for link cuts (harness)"], "assumptions": ASSUME_SYSTEM + ["descriptor counts are those of the simulated sockets (TLS sessions, buffers and other heap state are not counted)"],
     },
     "C08": {
         "level": "fault_enumeration",
-        "parts": [{"gen": "C08", "quick": 3200, "thorough": 64000}, {"gen": "C08udp", "quick": 3000, "thorough": 60000}],
+        "parts": [{"gen": "C08", "quick": 3200, "thorough": 64000}, {"gen": "C08udp", "quick": 3000, "thorough": 60000}, {"gen": "C08reply", "quick": 120, "thorough": 1200}],
         "rule": "one run = one (protocol, cipher, tcp/tls/ws/wss) cell, a canary flow before the faults (must pass, else the run does not count), then a sequence of faults from the catalogue "
                 "(every fault alone in the first 40 seeds of each block of 80, sequences of 2-5, thorough -8, in the rest): connect-and-close against client or server, stalled local SOCKS5/HTTP handshake, "
                 "partial TLS ClientHello / partial WebSocket upgrade / garbage / nothing sent to the server and held open, garbage then close, flows to refused / unresolvable / black-holed targets, "
@@ -94,18 +95,20 @@ CHECKS = {
                 "unresolvable and closed-port targets, a datagram too large to forward, a target that answers with 65507 bytes, send_to failing once on client or server, bind failing once for a new association / binding, the carrier connection of VMess / Trojan refused or reset, "
                 "idle periods past the 300 s / 600 s table expiries. Afterwards a fresh local application (new socket, new binding / session) and the application that was served before the faults must both get an echo within 60 simulated seconds, "
                 "the UDP sockets of client and server must still be bound and no main() may have returned.",
-        "real": REAL_SYSTEM, "stub": STUB_SYSTEM + ["attacker connections (harness)"], "assumptions": ASSUME_SYSTEM + ["in the datagram part a canary datagram is repeated every 5 simulated seconds (a datagram sent while a carrier connection is being re-made may be lost legitimately)"],
+        "real": REAL_SYSTEM, "stub": STUB_SYSTEM + ["attacker connections (harness)"], "assumptions": ASSUME_SYSTEM + ["in the datagram part a canary datagram is repeated every 5 simulated seconds (a datagram sent while a carrier connection is being re-made may be lost legitimately)",
+                                        "generator C08reply (in-path attacker): undecodable versions of a datagram reach the server, and undecodable versions of a reply reach the client's outbound socket, *before* the genuine one; the genuine datagram / reply that follows must still be relayed to the target / delivered to the application without the application having to send again"],
     },
     "C02": {
         "level": "exploration",
-        "parts": [{"gen": "C02", "quick": 4200, "thorough": 84000}],
+        "parts": [{"gen": "C02", "quick": 4200, "thorough": 84000}, {"gen": "C02owner", "quick": 120, "thorough": 1200}],
         "rule": "one run = real client (and, for multi-user Shadowsocks 2022, a second real client under another user key) + real server; the configuration cell cycles over the UDP-capable README rows "
                 "(Shadowsocks over udp x 7 ciphers x with/without users, VMess over tcp/tls/ws/wss, Trojan over tls/wss); 1-4 local applications send uniquely numbered SOCKS5-UDP datagrams (sizes 0-8, small, 1472/1473, "
                 "multi-KiB, largest that fits and one above) to 1-4 scripted targets addressed by IPv4 or by name, which answer 0-2 times; idle gaps of 2 s ... 620 s jump the clock past the 300 s / 600 s TTLs; "
                 "35% of Shadowsocks runs put loss, duplication and reordering on the client<->server datagram link. Oracle: clean links - every datagram reaches its target exactly once and unmodified, every reply reaches exactly "
                 "the application that owns the binding, as one datagram labelled with the target; lossy links - whole-or-nothing and at most once (legacy ciphers: at most as often as the network copied); "
                 "never to another application, target or client; UDP sockets still bound afterwards. non-trivial = at least one datagram reached a target; distinct = (plan, poll order).",
-        "real": REAL_SYSTEM, "stub": STUB_SYSTEM, "assumptions": ASSUME_SYSTEM + ["an over-size datagram may be dropped whole", "VMess/Trojan replies may be labelled with the requested name instead of the literal address (their wire formats do not carry the source)"],
+        "real": REAL_SYSTEM, "stub": STUB_SYSTEM, "assumptions": ASSUME_SYSTEM + ["an over-size datagram may be dropped whole", "VMess/Trojan replies may be labelled with the requested name instead of the literal address (their wire formats do not carry the source)",
+                                        "generator C02owner (owner part, in-path attacker): after a session's datagram has been relayed, an unchanged copy of it arrives from an address of the attacker's own (refused as a duplicate for 2022 ciphers); the target then speaks again on its own and the application sends again - every datagram of the session must still be sent to the socket that owns it and reach the owning application, none to the replayer's address"],
     },
     "C11": {
         "level": "model_checking",
